@@ -294,6 +294,28 @@ func c04Mutants(s *gen.Shape, i int, r *prng.R) []c04Mut {
 
 // c04Verify runs the interpreter on input idx of the shape, spending the
 // output recorded on that input. forkid selects WithForkID().
+var (
+	c04LongLivedGetter = &unlocker.Getter{}
+	c04GetterUses      int
+)
+
+// c04GetterFor returns the UnlockerGetter for a key: a new one, the
+// process-wide one with its key replaced (it has served other keys before), or
+// a copy of the process-wide one with the key replaced.
+func c04GetterFor(priv *bec.PrivateKey) *unlocker.Getter {
+	c04GetterUses++
+	switch c04GetterUses % 3 {
+	case 1:
+		c04LongLivedGetter.PrivateKey = priv
+		return c04LongLivedGetter
+	case 2:
+		g := *c04LongLivedGetter
+		g.PrivateKey = priv
+		return &g
+	}
+	return &unlocker.Getter{PrivateKey: priv}
+}
+
 func c04Verify(c *mon.Ctx, tx *bt.Tx, idx int, script []byte, sats uint64, forkid bool) (accepted bool, code string, ok bool) {
 	prev := &bt.Output{Satoshis: sats, LockingScript: bscript.NewFromBytes(append([]byte{}, script...))}
 	// UTXO_AFTER_GENESIS (+ SIGHASH_FORKID), handed over through the convenience
@@ -307,7 +329,20 @@ func c04Verify(c *mon.Ctx, tx *bt.Tx, idx int, script []byte, sats uint64, forki
 	if salt%4 == 3 {
 		fl |= uint32(scriptflag.VerifyStrictEncoding | scriptflag.VerifyDERSignatures | scriptflag.VerifyLowS | scriptflag.VerifyNullFail)
 	}
-	opts := append([]interpreter.ExecutionOptionFunc{interpreter.WithTx(tx, idx, prev)}, flagOptions(fl, salt/4+salt)...)
+	// the spent output is handed over complete with WithTx; or its amount with WithTx and the
+	// scripts with WithScripts; or both
+	ctxOpts := []interpreter.ExecutionOptionFunc{interpreter.WithTx(tx, idx, prev)}
+	if idx < len(tx.Inputs) && tx.Inputs[idx] != nil && tx.Inputs[idx].UnlockingScript != nil {
+		switch (salt / 4) % 4 {
+		case 1:
+			ctxOpts = []interpreter.ExecutionOptionFunc{interpreter.WithTx(tx, idx, &bt.Output{Satoshis: sats}), interpreter.WithScripts(prev.LockingScript, tx.Inputs[idx].UnlockingScript)}
+			c.Count("C04:context:amount-with-WithTx,scripts-with-WithScripts")
+		case 2:
+			ctxOpts = append(ctxOpts, interpreter.WithScripts(prev.LockingScript, tx.Inputs[idx].UnlockingScript))
+			c.Count("C04:context:WithTx+WithScripts")
+		}
+	}
+	opts := append(ctxOpts, flagOptions(fl, salt/4+salt)...)
 	var err error
 	if !c.Try("interpreter.Engine.Execute", func() { err = theEngine(c).Execute(opts...) }) {
 		return false, "", false
@@ -378,7 +413,7 @@ func c04Judge(c *mon.Ctx, in *c04Case) {
 		tx.Inputs = append(tx.Inputs, extra)
 		tx.LockTime ^= 0x5555
 		var ferr error
-		if c.Try("bt.(*Tx).FillAllInputs", func() { ferr = tx.FillAllInputs(context.Background(), &unlocker.Getter{PrivateKey: priv}) }) {
+		if c.Try("bt.(*Tx).FillAllInputs", func() { ferr = tx.FillAllInputs(context.Background(), c04GetterFor(priv)) }) {
 			if ferr != nil {
 				c.Count("history:failed-FillAllInputs-before-signing")
 			} else {
@@ -398,7 +433,7 @@ func c04Judge(c *mon.Ctx, in *c04Case) {
 			c.Count("skipped:malformed-case")
 			return
 		}
-		if !c.Try("bt.(*Tx).FillAllInputs", func() { serr = tx.FillAllInputs(context.Background(), &unlocker.Getter{PrivateKey: priv}) }) {
+		if !c.Try("bt.(*Tx).FillAllInputs", func() { serr = tx.FillAllInputs(context.Background(), c04GetterFor(priv)) }) {
 			return
 		}
 	default:
@@ -655,7 +690,7 @@ func c04JudgeFromPrev(c *mon.Ctx, in *c04FromPrev) {
 		return
 	}
 	_ = tx.PayTo(bscript.NewFromBytes(gen.P2PKH(r.Bytes(20))), 700)
-	if !c.Try("bt.(*Tx).FillAllInputs", func() { err = tx.FillAllInputs(context.Background(), &unlocker.Getter{PrivateKey: priv}) }) {
+	if !c.Try("bt.(*Tx).FillAllInputs", func() { err = tx.FillAllInputs(context.Background(), c04GetterFor(priv)) }) {
 		return
 	}
 	if err != nil {
